@@ -1,7 +1,157 @@
-(* C10 — property theorems only (proved in P_Frames.v). *)
-Require Import Base M_Frames.
+(* C10 — frame hooks: unwrap to a fixpoint; elaborate_frame edits only the inward rest.
+   Property theorems only (proved in P_Frames_Ref.v).  Model: M_Frames.v (extract_iter as coded,
+   the functions the generated cases evaluate).  Reference interpretation of the documented rules:
+   M_FramesRef.v (Unw / RefFlat / Ref, big-step, no fuel/deques/origins/ticks).
+   Examples showing that the hypotheses are met by non-trivial inputs: P_Frames_Ref.v, ex_*. *)
+Require Import Base M_Frames M_FramesRef P_Frames_Ref.
 From SS.gen Require Import SrcFacts.
 
+(* the constant of the progress guard, regenerated from the source *)
 Theorem C10_guard_constant : SrcFacts.unwrap_guard = 100.
 Proof. reflexivity. Qed.
 Print Assumptions C10_guard_constant.
+
+(* the hook call sites of extract_iter are guarded in the source, as the cases assume *)
+Theorem C10_guards_regenerated :
+  extract_g_unwrap = g_unwrap all_guards /\ extract_g_iter = g_iter all_guards /\
+  extract_g_elab = g_elab all_guards.
+Proof. exact guards_regenerated. Qed.
+Print Assumptions C10_guards_regenerated.
+
+(* every configuration printed by the generator (no faults, no contexts, all guards) is in the
+   domain of the theorems below, whatever its tables *)
+Theorem C10_cases_plain : forall u e a cx fl ug, plain (mkcfg u e a cx fl [] false all_guards ug).
+Proof. exact mkcfg_plain. Qed.
+Print Assumptions C10_cases_plain.
+
+(* the reference interpretation is deterministic: "the reference result" is well defined *)
+Theorem C10_ref_deterministic : forall c seq r r', Ref c seq r -> Ref c seq r' -> r = r'.
+Proof. exact Ref_det. Qed.
+Print Assumptions C10_ref_deterministic.
+
+(* the executable reference used as second oracle in the cases files computes it *)
+Theorem C10_ref_run_sound : forall c fuel seq r, ref_run fuel c seq = Some r -> Ref c seq r.
+Proof. exact ref_run_sound. Qed.
+Print Assumptions C10_ref_run_sound.
+
+(* MAIN: whenever the model's extract does not run out of fuel it returns a Stack (never raises)
+   whose frames (with hide flags), leaf and ordered errors are the reference result *)
+Theorem C10_model_eq_ref : forall c root,
+  plain c -> extract c root <> OutOfFuel ->
+  exists s, extract c root = Ok s /\ Ref c [(s_of root, 0)] (view s).
+Proof. exact model_eq_ref. Qed.
+Print Assumptions C10_model_eq_ref.
+
+(* same for every amount of fuel and every starting tick *)
+Theorem C10_model_eq_ref_any_fuel : forall c root fuel t r t',
+  plain c -> run fuel false c (root_q c root) [] [] [] t = (r, t') -> r <> OutOfFuel ->
+  exists s, r = Ok s /\ Ref c [(s_of root, 0)] (view s).
+Proof. exact run_root_ref. Qed.
+Print Assumptions C10_model_eq_ref_any_fuel.
+
+(* ... hence equal to ANY reference result, in particular to what ref_run computes
+   (ref_extract c root is by definition ref_run default_fuel c [(s_of root, 0)]) *)
+Theorem C10_model_eq_ref_unique : forall c root s r,
+  plain c -> extract c root = Ok s -> Ref c [(s_of root, 0)] r -> view s = r.
+Proof. exact model_eq_ref_unique. Qed.
+Print Assumptions C10_model_eq_ref_unique.
+
+Theorem C10_model_eq_ref_run : forall c root s r,
+  plain c -> extract c root = Ok s -> ref_run default_fuel c [(s_of root, 0)] = Some r -> view s = r.
+Proof. exact model_eq_ref_run. Qed.
+Print Assumptions C10_model_eq_ref_run.
+
+(* all hooks return None: the frames are the leading frames of the unwrapped item tree, in order;
+   the leaf is what follows them *)
+Theorem C10_none_is_flatten : forall c root s,
+  plain c -> (forall f, elab c f = ENone) -> extract c root = Ok s ->
+  exists flat es, Unw c 0 [(s_of root, 0)] flat es /\
+                  view s = (frame_prefix c flat, map fst (after_frames flat), es).
+Proof. exact none_is_flatten. Qed.
+Print Assumptions C10_none_is_flatten.
+
+(* PRUNE / empty sequence at a frame of depth d, in any state of the outer loop: the frames already
+   yielded are unchanged, the entries removed are exactly the maximal following run with
+   depth >= d (the callees), the first entry of depth < d and everything after it survive, and the
+   remainder of the result is the reference result of the survivors alone *)
+Theorem C10_prune_exact : forall c fuel f org d rest errs out t,
+  plain c -> nopy rest -> elab c f = ESeq [] ->
+  let gone := callees d rest in
+  let kept := survivors d rest in
+  rest = gone ++ kept /\ Forall (fun e => d <= snd e) gone /\
+  (forall q d' k, kept = (q, d') :: k -> d' < d) /\
+  run_result_is c (run fuel false c [] ((QFr f org, d) :: rest) errs out t)
+                out errs f (prehide c f) [] (map er_t kept).
+Proof. exact prune_exact. Qed.
+Print Assumptions C10_prune_exact.
+
+(* a sequence not ending in next_inner: its items, at the frame's depth, replace the callees *)
+Theorem C10_replace : forall c fuel f org d rest errs out t l,
+  plain c -> nopy rest -> elab c f = ESeq l ->
+  let next := next_of_s (map er_t rest) in
+  ends_next next l = false ->
+  run_result_is c (run fuel false c [] ((QFr f org, d) :: rest) errs out t)
+                out errs f (prehide c f) []
+                (at_depth d (map (conc_s next) l) ++ map er_t (survivors d rest)).
+Proof. exact replace_rule. Qed.
+Print Assumptions C10_replace.
+
+(* a sequence ending in next_inner: the other items are inserted at the frame's depth before the
+   rest; nothing is removed; only next_inner's depth may change (to min d own, redepth_s_spec) *)
+Theorem C10_insert : forall c fuel f org d rest errs out t l r,
+  plain c -> nopy rest -> elab c f = ESeq (l ++ [r]) ->
+  let next := next_of_s (map er_t rest) in
+  is_next next r = true ->
+  run_result_is c (run fuel false c [] ((QFr f org, d) :: rest) errs out t)
+                out errs f (prehide c f) []
+                (at_depth d (map (conc_s next) l) ++ redepth_s d (map er_t rest)).
+Proof. exact insert_rule. Qed.
+Print Assumptions C10_insert.
+
+Theorem C10_insert_depths : forall d rest,
+  map fst (redepth_s d rest) = map fst rest /\
+  match rest, redepth_s d rest with
+  | (_, d') :: r, (_, d'') :: r' => d'' = Nat.min d d' /\ r' = r
+  | [], [] => True
+  | _, _ => False
+  end.
+Proof. exact redepth_s_spec. Qed.
+Print Assumptions C10_insert_depths.
+
+(* every hook result (None, bare item, bare next_inner, sequence, raise) in one statement *)
+Theorem C10_frame_rule : forall c (P : plain c) fuel f org d rest errs out t,
+  nopy rest ->
+  frame_spec c (run fuel false c [] ((QFr f org, d) :: rest) errs out t) out errs f d (map er_t rest).
+Proof. exact run_frame_ref. Qed.
+Print Assumptions C10_frame_rule.
+
+(* an iterator that raises after yielding l contributes exactly l: same frames and leaf as if
+   the hook had returned the sequence l *)
+Theorem C10_iter_keeps_prefix : forall c c2 o l root s s2,
+  plain c -> plain c2 -> iter_as_seq c c2 o l ->
+  extract c root = Ok s -> extract c2 root = Ok s2 ->
+  fst (view s) = fst (view s2).
+Proof. exact iter_keeps_prefix. Qed.
+Print Assumptions C10_iter_keeps_prefix.
+
+(* a linear chain that reaches neither a frame nor None within the (regenerated) guard constant
+   ends with the loop error and the item as leaf; fuel >= guard + 2 suffices *)
+Theorem C10_guard : forall c (o : nat -> nat),
+  (forall t, fault c t = false) -> g_unwrap (grd c) = true ->
+  uguard c = SrcFacts.unwrap_guard ->
+  (forall k, k < SrcFacts.unwrap_guard -> unwrap c (o k) = UOne (IObj (o (S k)))) ->
+  unwrap c (o SrcFacts.unwrap_guard) <> URaise ->
+  extract c (IObj (o 0))
+  = Ok (Stack [] (LOne (QObj (o SrcFacts.unwrap_guard))) [ELoop (QObj (o SrcFacts.unwrap_guard))]).
+Proof. exact guard_extract. Qed.
+Print Assumptions C10_guard.
+
+Theorem C10_guard_any_fuel : forall c (o : nat -> nat) fuel t,
+  (forall t, fault c t = false) -> g_unwrap (grd c) = true ->
+  (forall k, k < uguard c -> unwrap c (o k) = UOne (IObj (o (S k)))) ->
+  unwrap c (o (uguard c)) <> URaise ->
+  uguard c + 2 <= fuel ->
+  fst (run fuel false c (root_q c (IObj (o 0))) [] [] [] t)
+  = Ok (Stack [] (LOne (QObj (o (uguard c)))) [ELoop (QObj (o (uguard c)))]).
+Proof. exact guard_run. Qed.
+Print Assumptions C10_guard_any_fuel.
